@@ -166,7 +166,7 @@ def run(chk, replay=None):
     for e in allevs:
         ops[e["op"] + ("/" + e["src"] if e["op"] in ("pack", "final_step") and "src" in e else "")] += 1
     chk.cov["ops"] = dict(ops)
-    chk.cov["final_step_skipped_no_survivor"] = ops.get("skip", 0)
+    chk.cov["final_step_skipped"] = dict(collections.Counter(e["why"] for e in allevs if e["op"] == "skip"))
     pl = collections.Counter()
     for e in allevs:
         if e["op"] == "add":
